@@ -9,8 +9,8 @@
    [lstat_first] = true is the code after the fix "remove a symbolic link as a link" (Lstat before anything else in
    RemoveWithContextAndExclusionPatterns and in garbageCollect); false is the code before it, kept for the refutation
    theorems that document the repaired defect D10.
-   The pass-down of the exclusion patterns from CleanDir... to the per-entry removal (defect D11, repaired by the C08
-   work) is modelled as present. *)
+   The exclusion patterns are handed down from CleanDir... to the per-entry removal as the C08 repair of defect D11
+   does it: the entry NAME is tested for nested entries, the caller's path for the top entry. *)
 From Coq Require Import List ZArith Bool.
 Import ListNotations.
 
@@ -133,34 +133,36 @@ Definition is_empty (s : fsys) (p : path) : bool :=
   end.
 
 Section Removal.
-(* exclusion.go: the listing tests the BASE NAME of each entry (LsWithExclusionPatterns -> ExcludeFiles), the removal
-   tests the FULL PATH (IsPathExcludedFromPatterns, files.go:747) *)
+(* exclusion.go: the listing tests the BASE NAME of each entry (LsWithExclusionPatterns -> ExcludeFiles); the removal
+   tests [tested] (IsPathExcludedFromPatterns): the path as given by the caller for the top entry, the entry NAME (a
+   one-component path) for everything below it — removeFileWithContext hands the name down (repair of D11). *)
 Variable excl_name : name -> bool.
 Variable excl_path : path -> bool.
 Variable lstat_first : bool.
 Variable cancelled : bool.           (* the context handed in is already done *)
 
-(* LsWithExclusionPatterns, files.go:1175-1186,1245-1262 *)
+(* LsWithExclusionPatterns *)
 Definition ls (s : fsys) (p : path) : option (list name) :=
   match is_dir s p with
   | Some true => match readdir s p with Some ns => Some (filter (fun n => negb (excl_name n)) ns) | None => None end
   | _ => None
   end.
 
-(* the loop of CleanDirWithContextAndExclusionPatterns (files.go:610-616) over removeFileWithContext (620-631) *)
-Fixpoint fold_rm (rm : fsys -> path -> fsys * res) (s : fsys) (p : path) (ns : list name) : fsys * res :=
+(* the loop of CleanDirWithContextAndExclusionPatterns over removeFileWithContext:
+   removeWithExclusionPatterns(ctx, Join(dir, f), f, patterns...) *)
+Fixpoint fold_rm (rm : fsys -> path -> path -> fsys * res) (s : fsys) (p : path) (ns : list name) : fsys * res :=
   match ns with
   | [] => (s, Ok)
   | n :: r =>
       if cancelled then (s, Err ECancelled) else
-      match rm s (p ++ [n]) with
+      match rm s (p ++ [n]) [n] with
       | (s1, Ok) => fold_rm rm s1 p r
       | (s1, Err e) => (s1, Err e)
       end
   end.
 
-(* CleanDirWithContextAndExclusionPatterns, files.go:590-618 *)
-Definition clean_dir_with (rm : fsys -> path -> fsys * res) (s : fsys) (p : path) : fsys * res :=
+(* CleanDirWithContextAndExclusionPatterns *)
+Definition clean_dir_with (rm : fsys -> path -> path -> fsys * res) (s : fsys) (p : path) : fsys * res :=
   if cancelled then (s, Err ECancelled) else
   if negb (exists_ s p) then (s, Ok) else
   if is_empty s p then (s, Ok) else
@@ -169,15 +171,16 @@ Definition clean_dir_with (rm : fsys -> path -> fsys * res) (s : fsys) (p : path
   | Some ns => fold_rm rm s p ns
   end.
 
-(* RemoveWithContextAndExclusionPatterns, files.go:711-752 (the case dir == "" is not modelled: [] is the sandbox root) *)
-Fixpoint remove (fuel : nat) (s : fsys) (p : path) {struct fuel} : fsys * res :=
+(* removeWithExclusionPatterns(ctx, dir, tested, patterns...) (the case dir == "" is not modelled: [] is the sandbox
+   root; the patterns are valid regular expressions) *)
+Fixpoint remove (fuel : nat) (s : fsys) (p : path) (tested : path) {struct fuel} : fsys * res :=
   match fuel with
   | O => (s, Err EFuel)
   | S f =>
       if lstat_first && is_link (lstat s p) then
         (* the fix: a symbolic link is removed as a link, never followed *)
         if cancelled then (s, Err ECancelled) else
-        if excl_path p then (s, Ok) else os_remove s p
+        if excl_path tested then (s, Ok) else os_remove s p
       else
       if negb (exists_ s p) then (s, Ok) else
       match is_dir s p with
@@ -190,11 +193,13 @@ Fixpoint remove (fuel : nat) (s : fsys) (p : path) {struct fuel} : fsys * res :=
           | Ok =>
               if isDir && negb (is_empty s1 p) then (s1, Ok) else    (* some entries were excluded: stop *)
               if cancelled then (s1, Err ECancelled) else
-              if excl_path p then (s1, Ok) else os_remove s1 p
+              if excl_path tested then (s1, Ok) else os_remove s1 p
           end
       end
   end.
 
+(* RemoveWithContextAndExclusionPatterns(ctx, dir, patterns...) = removeWithExclusionPatterns(ctx, dir, dir, patterns...) *)
+Definition remove_top (fuel : nat) (s : fsys) (p : path) : fsys * res := remove fuel s p p.
 Definition clean_dir (fuel : nat) (s : fsys) (p : path) : fsys * res := clean_dir_with (remove fuel) s p.
 End Removal.
 
@@ -204,9 +209,10 @@ Variable cancelled : bool.
 Variable old : path -> bool.   (* the entry at this PHYSICAL path was last accessed longer ago than the threshold *)
 
 (* RemoveWithContext = removal without exclusion patterns *)
-Definition remove0 := remove (fun _ => false) (fun _ => false) lstat_first cancelled.
+Definition remove0 (fuel : nat) (s : fsys) (p : path) : fsys * res :=
+  remove (fun _ => false) (fun _ => false) lstat_first cancelled fuel s p p.
 
-(* garbageCollectFile, files.go:1883-1901: StatTimes follows links *)
+(* garbageCollectFile: StatTimes follows links *)
 Definition gc_file (fuel : nat) (s : fsys) (p : path) : fsys * res :=
   if cancelled then (s, Err ECancelled) else
   match resolve link_fuel s true p with
@@ -214,8 +220,20 @@ Definition gc_file (fuel : nat) (s : fsys) (p : path) : fsys * res :=
   | Some q => if old q then remove0 fuel s p else (s, Ok)
   end.
 
-(* garbageCollect / garbageCollectDir, files.go:1903-1958 (non-Windows).  The children are collected by Parallelise and
-   their errors are dropped; they are modelled in sequence (in the repaired code they work on disjoint subtrees). *)
+(* the children of garbageCollectDir: collected by Parallelise, their errors are dropped.  Modelled in sequence (see
+   gc_order_irrelevant in Props.v); running out of fuel is not an error of the code but the model's own mark of
+   non-termination, so it is the one thing that is NOT dropped. *)
+Fixpoint gc_children (g : fsys -> path -> fsys * res) (s : fsys) (p : path) (ns : list name) : fsys * bool :=
+  match ns with
+  | [] => (s, false)
+  | n :: r =>
+      match g s (p ++ [n]) with
+      | (s1, Err EFuel) => (s1, true)
+      | (s1, _) => gc_children g s1 p r
+      end
+  end.
+
+(* garbageCollect / garbageCollectDir (non-Windows) *)
 Fixpoint gc (fuel : nat) (s : fsys) (p : path) (deletePath : bool) {struct fuel} : fsys * res :=
   match fuel with
   | O => (s, Err EFuel)
@@ -228,14 +246,16 @@ Fixpoint gc (fuel : nat) (s : fsys) (p : path) (deletePath : bool) {struct fuel}
           match ls (fun _ => false) s p with
           | None => (s, Err EInvalid)
           | Some ns =>
-              let s1 := fold_left (fun acc n => fst (gc f acc (p ++ [n]) true)) ns s in
-              if is_empty s1 p && deletePath then remove0 f s1 p else (s1, Ok)
+              match gc_children (fun a q => gc f a q true) s p ns with
+              | (s1, true) => (s1, Err EFuel)
+              | (s1, false) => if is_empty s1 p && deletePath then remove0 f s1 p else (s1, Ok)
+              end
           end
       | _ => gc_file f s p
       end
   end.
 
-(* GarbageCollectWithContext, files.go:1879-1881 *)
+(* GarbageCollectWithContext *)
 Definition garbage_collect (fuel : nat) (s : fsys) (root : path) : fsys * res := gc fuel s root false.
 End GC.
 
@@ -309,7 +329,7 @@ Definition run_case (c : case) : fsys * res :=
   let en := name_excluded (c_pats c) in
   let ep := path_excluded (c_pats c) in
   match c_op c with
-  | OpRm => remove en ep true (c_cancelled c) fuel (c_before c) (c_root c)
+  | OpRm => remove_top en ep true (c_cancelled c) fuel (c_before c) (c_root c)
   | OpClean => clean_dir en ep true (c_cancelled c) fuel (c_before c) (c_root c)
   | OpGc => garbage_collect true (c_cancelled c)
               (fun q => c_all_old c || existsb (path_eqb q) (c_old c)) fuel (c_before c) (c_root c)
